@@ -159,6 +159,80 @@ func c17Scenarios(c *fw.Ctx) []*Scenario {
 		}})
 	}
 
+	// (F') concurrent fetches on a handle that has WRITTEN and not read since: created, the first slot of every archive
+	// written (coarsest first), nothing synced or fetched before the concurrent phase.  Reference: the same preparation on
+	// a second file, fetched sequentially.
+	{
+		name := "F-created-written-handle"
+		qs := []fq{{2, c17Now - 16, c17Now}, {2, c17Now - 8, c17Now}, {0, c17Now - 7, c17Now}}
+		prep := func(p string) (*wt.Whisper, error) {
+			os.Remove(p)
+			db, err := wt.Create(p, archList(l.Archs), wt.Sum, 0)
+			if err != nil {
+				return nil, err
+			}
+			for i := len(l.Archs) - 1; i >= 0; i-- {
+				st := int64(l.Archs[i].Step)
+				for j, t := range []int64{c17Now, c17Now - st} {
+					if err := db.UpdatePointForArchive(i, wt.Timestamp(t), wt.Value(float64(10*i+j)+0.5), wt.Timestamp(c17Now)); err != nil {
+						db.Close()
+						return nil, err
+					}
+				}
+			}
+			return db, nil
+		}
+		var solo []FetchObs
+		out = append(out, &Scenario{Name: name, Bound: b3, Make: func() ([]func(), func(*vrt.Sched) (string, string, string)) {
+			vrt.SetPagesize(16)
+			os.MkdirAll(root, 0755)
+			if solo == nil {
+				if ref, err := prep(filepath.Join(root, "created-ref.wsp")); err == nil {
+					for _, q := range qs {
+						solo = append(solo, RealFetch(ref, q.id, Window{q.from, q.until}, c17Now))
+					}
+					ref.Close()
+				}
+			}
+			db, err := prep(filepath.Join(root, "created.wsp"))
+			res := make([]FetchObs, len(qs))
+			var bodies []func()
+			for i, q := range qs {
+				i, q := i, q
+				bodies = append(bodies, func() {
+					if db == nil {
+						return
+					}
+					o := RealFetch(db, q.id, Window{q.from, q.until}, c17Now)
+					hmu.Lock()
+					res[i] = o
+					hmu.Unlock()
+				})
+			}
+			judge := func(s *vrt.Sched) (string, string, string) {
+				if db != nil {
+					db.Close()
+				}
+				if err != nil || len(solo) != len(qs) {
+					return "", "", "prepare-failed"
+				}
+				if s.Deadlock || len(s.Panics) > 0 || s.Diverged != "" {
+					return "", "", "aborted"
+				}
+				for i, q := range qs {
+					if res[i].Panic != "" {
+						return "C17/" + name + "/panic", firstLine(res[i].Panic), "panic"
+					}
+					if ok, j := valsEqual(solo[i].Vals, res[i].Vals); !ok || res[i].From != solo[i].From || res[i].Err != solo[i].Err {
+						return "C17/" + name + "/result-differs-from-solo", fmt.Sprintf("fetch %d (archive %d, window %d..%d) returned %v, alone it returns %v (first difference at %d)", i, q.id, q.from, q.until, res[i].Vals, solo[i].Vals, j), "differs"
+					}
+				}
+				return "", "", "equal"
+			}
+			return bodies, judge
+		}})
+	}
+
 	// (S) sum over 2 and 3 files, (E) diff and copy: the command's own goroutines are scheduler threads
 	mkWorld := func() {
 		os.RemoveAll(root)
